@@ -1,4 +1,6 @@
 import os
+import re
+import shutil
 
 import vlib
 
@@ -10,7 +12,42 @@ def regenerate(rep):
     rc, out = vlib.sh([os.path.join(vlib.VERIF, "bin", "regen-c18.sh")], cwd=vlib.VERIF, timeout=300)
     if rc != 0:
         return False, "tab2coq could not translate cubeVertIndices of modeling/primitives/cube.go:\n" + out[-3000:]
+    race_detector(rep)
     return True, out
+
+
+def race_detector(rep):
+    """The concurrency stream (4-8 goroutines, each building its own parameterisation of the primitives behind a start
+    barrier) once more with the harness built with -race: shared package-level state in the constructors is a data
+    race the detector names directly, whether or not an interleaving corrupts a result in this run."""
+    hb_ok, hbin, hlog = vlib.harness_build("c18", race=True, timeout=900)
+    if not hb_ok:
+        rep.notes.append("race detector: the -race build of the harness failed (%s); concurrency stream judged by its "
+                         "result oracles only in this run" % hlog.strip().splitlines()[-1:])
+        return
+    outdir = os.path.join(vlib.BUILD, "run", "C18-race-" + rep.tier)
+    shutil.rmtree(outdir, ignore_errors=True)
+    os.makedirs(outdir, exist_ok=True)
+    env = dict(vlib.GOENV, GORACE="halt_on_error=0 exitcode=66")
+    rc, out = vlib.sh([hbin, "-seed", str(rep.seed), "-n", "1", "-out", outdir, "-tier", rep.tier, "-conc-only"],
+                      cwd=vlib.VERIF, timeout=600, env=env)
+    races = out.count("WARNING: DATA RACE")
+    rep.notes.append("race detector: concurrency stream with -race, %d report(s)" % races)
+    if races or rc == 66:
+        case = {}
+        try:
+            cases = vlib.load_cases(outdir)
+            case = cases[sorted(cases)[0]] if cases else {}
+        except (OSError, ValueError):
+            pass
+        m = re.search(r"WARNING: DATA RACE.*?={18}", out, re.S)
+        rep.violation({"kind": "property-fails-on-implementation", "case": case,
+                       "oracle": "go race detector: the constructors share unsynchronised state (window of goroutines "
+                                 "each building its own primitive; replay repeats the window): "
+                                 + (m.group(0) if m else out)[:5000], "reports": races})
+    elif rc != 0:
+        rep.violation({"kind": "harness-run", "broken": "the -race build of the harness crashed or timed out",
+                       "detail": out[-4000:]}, no_input=True)
 
 
 CFG = {
@@ -67,7 +104,11 @@ CFG = {
             "inputs (judged like the constructor), with all inputs unconnected and with counts below the minimum (judged by the "
             "property alone), counts a constructor accepts although the model rejects them (judged by the property), "
             "Cylinder without caps and Circle / Quad on their own (recorded only), 1/5 of the sampled stream scaled or "
-            "node-wrapped; closedness after merging is decided in Go on every case and re-decided by the verified checker "
+            "node-wrapped; concurrency stream: three windows of 4-8 goroutines behind a start barrier, each goroutine building "
+            "its OWN parameterisation (cylinders with mixed side counts 3..3000, spheres, hemispheres, boxes, nodes) for 350 ms, "
+            "every result bit-identical (indices, positions, normals) to the sequential build of the same parameters, which "
+            "is judged by the same oracles; the same windows once more under the -race build (a data race report is a "
+            "failure); closedness after merging is decided in Go on every case and re-decided by the verified checker "
             "wherever the lists are written out; distinct by "
             "parameters; non-trivial = the constructor returned at least one triangle",
     "trusted": ["positions of sphere/cylinder/hemisphere are math.Sin/Cos values: signed volume vs the inscribed "
